@@ -27,22 +27,31 @@ theorem runScript_nil (maxDepth : Nat) (m : Machine) : runScript maxDepth [] m =
 
 /-- A script that reports an error is rejected whatever it returned and whatever it wrote. -/
 theorem userCall_error (maxDepth : Nat) (m : Machine) (script : List Op) (ret : Ret)
-    (h : (runScript maxDepth script m).2.isSome = true) : userCall maxDepth m script ret = .fail := by
-  simp [userCall, h, police]
+    (h : (runPoliced maxDepth m.stack.length script m).2.isSome = true) : userCall maxDepth m script ret = .fail := by
+  simp [userCall, userCallWithFloor, h, police]
 
 /-! ### Shape of a script: relative depth and number of values started at the starting level -/
 
+/-- Effect of one call on (nesting depth relative to the start, number of values begun at the starting level);
+`none` when the call would close a container the script did not open. -/
+def shapeStep : Op → Nat → Nat → Option (Nat × Nat)
+  | .lit, r, c => some (r, if r = 0 then c + 1 else c)
+  | .str, r, c => some (r, if r = 0 then c + 1 else c)
+  | .val, r, c => some (r, if r = 0 then c + 1 else c)
+  | .pushO, r, c => some (r + 1, if r = 0 then c + 1 else c)
+  | .pushA, r, c => some (r + 1, if r = 0 then c + 1 else c)
+  | .popO, r, c => if r = 0 then none else some (r - 1, c)
+  | .popA, r, c => if r = 0 then none else some (r - 1, c)
+
 /-- Walk a script keeping the nesting depth relative to the start (`r`) and the number of values begun at the
-starting level (`c`); `none` as soon as the script closes a container it did not open. -/
+starting level (`c`); `none` as soon as the script closes a container it did not open.
+`shape script 0 0 = some (0, 1)` says: the script is exactly one complete value at the starting level. -/
 def shape : List Op → Nat → Nat → Option (Nat × Nat)
   | [], r, c => some (r, c)
-  | .lit :: rest, r, c => shape rest r (if r = 0 then c + 1 else c)
-  | .str :: rest, r, c => shape rest r (if r = 0 then c + 1 else c)
-  | .val :: rest, r, c => shape rest r (if r = 0 then c + 1 else c)
-  | .pushO :: rest, r, c => shape rest (r + 1) (if r = 0 then c + 1 else c)
-  | .pushA :: rest, r, c => shape rest (r + 1) (if r = 0 then c + 1 else c)
-  | .popO :: rest, r, c => if r = 0 then none else shape rest (r - 1) c
-  | .popA :: rest, r, c => if r = 0 then none else shape rest (r - 1) c
+  | op :: rest, r, c =>
+    match shapeStep op r c with
+    | none => none
+    | some (r1, c1) => shape rest r1 c1
 
 /-! ### stateEntry arithmetic -/
 
@@ -143,8 +152,74 @@ private theorem pop_step (m0 m : Machine) (r c : Nat) (e : Entry) (ht : Tracks m
       | cons y ys =>
         simpa [baseLen, List.dropLast] using hb
 
-/-- Main invariant: a script that the machine accepts and that never closes a container it did not open
-leaves the original stack in place, is `r` levels deep, and has begun exactly `c` values at the starting level. -/
+/-- One accepted call keeps the invariant, provided a closing call happens strictly above the starting level. -/
+theorem apply_tracks (maxDepth : Nat) (m0 m m1 : Machine) (op : Op) (r c : Nat) (ht : Tracks m0 m r c)
+    (hap : op.apply maxDepth m = .ok m1) (hpop : op.isPop = true → r ≠ 0)
+    (hov : m0.last.length + c < 2 ^ 61 - 1) :
+    ∃ r1 c1, shapeStep op r c = some (r1, c1) ∧ Tracks m0 m1 r1 c1 ∧ c1 ≤ c + 1 := by
+  cases op with
+  | lit =>
+    simp only [Op.apply, Machine.appendLiteral] at hap
+    split at hap <;> try (simp at hap; done)
+    split at hap <;> try (simp at hap; done)
+    simp only [Except.ok.injEq] at hap
+    subst hap
+    exact ⟨_, _, rfl, scalar_step m0 m r c _ ht rfl hov, by split <;> omega⟩
+  | val =>
+    simp only [Op.apply, Machine.appendLiteral] at hap
+    split at hap <;> try (simp at hap; done)
+    split at hap <;> try (simp at hap; done)
+    simp only [Except.ok.injEq] at hap
+    subst hap
+    exact ⟨_, _, rfl, scalar_step m0 m r c _ ht rfl hov, by split <;> omega⟩
+  | str =>
+    simp only [Op.apply, Machine.appendString] at hap
+    split at hap <;> try (simp at hap; done)
+    simp only [Except.ok.injEq] at hap
+    subst hap
+    exact ⟨_, _, rfl, scalar_step m0 m r c _ ht rfl hov, by split <;> omega⟩
+  | pushO =>
+    simp only [Op.apply, Machine.pushObject] at hap
+    split at hap <;> try (simp at hap; done)
+    split at hap <;> try (simp at hap; done)
+    split at hap <;> try (simp at hap; done)
+    simp only [Except.ok.injEq] at hap
+    subst hap
+    exact ⟨_, _, rfl, push_step m0 m r c _ length_typeObject ht hov, by split <;> omega⟩
+  | pushA =>
+    simp only [Op.apply, Machine.pushArray] at hap
+    split at hap <;> try (simp at hap; done)
+    split at hap <;> try (simp at hap; done)
+    split at hap <;> try (simp at hap; done)
+    simp only [Except.ok.injEq] at hap
+    subst hap
+    exact ⟨_, _, rfl, push_step m0 m r c _ length_typeArray ht hov, by split <;> omega⟩
+  | popO =>
+    have hr : r ≠ 0 := hpop rfl
+    simp only [Op.apply, Machine.popObject] at hap
+    split at hap <;> try (simp at hap; done)
+    split at hap <;> try (simp at hap; done)
+    split at hap <;> try (simp at hap; done)
+    split at hap
+    · rename_i e hg
+      simp only [Except.ok.injEq] at hap
+      subst hap
+      exact ⟨r - 1, c, by simp [shapeStep, hr], pop_step m0 m r c e ht hr hg, by omega⟩
+    · simp at hap
+  | popA =>
+    have hr : r ≠ 0 := hpop rfl
+    simp only [Op.apply, Machine.popArray] at hap
+    split at hap <;> try (simp at hap; done)
+    split at hap <;> try (simp at hap; done)
+    split at hap
+    · rename_i e hg
+      simp only [Except.ok.injEq] at hap
+      subst hap
+      exact ⟨r - 1, c, by simp [shapeStep, hr], pop_step m0 m r c e ht hr hg, by omega⟩
+    · simp at hap
+
+/-- Main invariant, floor-free form: a script that the machine accepts and that never closes a container it did
+not open leaves the original stack in place, is `r` levels deep, and has begun exactly `c` values at the starting level. -/
 theorem runScript_tracks (maxDepth : Nat) (m0 : Machine) (script : List Op) :
     ∀ (m m' : Machine) (r c r' c' : Nat), Tracks m0 m r c →
       m0.last.length + c + script.length < 2 ^ 61 →
@@ -160,79 +235,164 @@ theorem runScript_tracks (maxDepth : Nat) (m0 : Machine) (script : List Op) :
   | cons op rest ih =>
     intro m m' r c r' c' ht hov hrun hsh
     simp only [List.length_cons] at hov
-    have hc1 : m0.last.length + (if r = 0 then c + 1 else c) + rest.length < 2 ^ 61 := by split <;> omega
-    have hc0 : m0.last.length + c < 2 ^ 61 - 1 := by omega
     unfold runScript at hrun
     cases hap : op.apply maxDepth m with
     | error e => simp [hap] at hrun
     | ok m1 =>
       simp only [hap] at hrun
+      have hpop : op.isPop = true → r ≠ 0 := by
+        intro hp hr
+        subst hr
+        cases op <;> simp [Op.isPop] at hp <;> simp [shape, shapeStep] at hsh
+      obtain ⟨r1, c1, hs1, ht1, hc1⟩ := apply_tracks maxDepth m0 m m1 op r c ht hap hpop (by omega)
+      simp only [shape, hs1] at hsh
+      exact ih _ _ _ _ _ _ ht1 (by omega) hrun hsh
+
+/-! ### Under the floor -/
+
+/-- An accepted policed call is the plain machine call, and a closing call happened strictly above the floor. -/
+theorem policedStep_ok (maxDepth floor : Nat) (m m1 : Machine) (op : Op) (h : policedStep maxDepth floor m op = .ok m1) :
+    op.apply maxDepth m = .ok m1 ∧ (op.isPop = true → floor < m.stack.length) := by
+  cases op with
+  | popO =>
+    simp only [policedStep] at h
+    split at h <;> try (simp at h; done)
+    split at h <;> try (simp at h; done)
+    rename_i h1 h2
+    refine ⟨?_, fun _ => by omega⟩
+    simp only [Op.apply]
+    cases hp : m.popObject with
+    | ok x => simp [liftSM, hp] at h; simp [h]
+    | error e => simp [liftSM, hp] at h
+  | popA =>
+    simp only [policedStep] at h
+    split at h <;> try (simp at h; done)
+    split at h <;> try (simp at h; done)
+    rename_i h1 h2
+    refine ⟨?_, fun _ => by omega⟩
+    simp only [Op.apply]
+    cases hp : m.popArray with
+    | ok x => simp [liftSM, hp] at h; simp [h]
+    | error e => simp [liftSM, hp] at h
+  | lit | str | val | pushO | pushA =>
+    simp only [policedStep] at h
+    refine ⟨?_, fun hp => by simp [Op.isPop] at hp⟩
+    first
+      | (cases hp : Op.apply maxDepth m Op.lit with
+         | ok x => simp [liftSM, hp] at h; simp [h]
+         | error e => simp [liftSM, hp] at h)
+      | (cases hp : Op.apply maxDepth m Op.str with
+         | ok x => simp [liftSM, hp] at h; simp [h]
+         | error e => simp [liftSM, hp] at h)
+      | (cases hp : Op.apply maxDepth m Op.val with
+         | ok x => simp [liftSM, hp] at h; simp [h]
+         | error e => simp [liftSM, hp] at h)
+      | (cases hp : Op.apply maxDepth m Op.pushO with
+         | ok x => simp [liftSM, hp] at h; simp [h]
+         | error e => simp [liftSM, hp] at h)
+      | (cases hp : Op.apply maxDepth m Op.pushA with
+         | ok x => simp [liftSM, hp] at h; simp [h]
+         | error e => simp [liftSM, hp] at h)
+
+theorem tracks_stack_length (m0 m : Machine) (r c : Nat) (ht : Tracks m0 m r c) :
+    m.stack.length = m0.stack.length + r := by
+  obtain ⟨ext, hs, hl, _⟩ := ht
+  simp [hs, hl]
+
+/-- Main invariant under the floor of the starting level: EVERY script that the policed coder accepts has a shape
+(it cannot have closed a container it did not open) and the machine follows it. -/
+theorem runPoliced_tracks (maxDepth : Nat) (m0 : Machine) (script : List Op) :
+    ∀ (m m' : Machine) (r c : Nat), Tracks m0 m r c →
+      m0.last.length + c + script.length < 2 ^ 61 →
+      runPoliced maxDepth m0.stack.length script m = (m', none) →
+      ∃ r' c', shape script r c = some (r', c') ∧ Tracks m0 m' r' c' := by
+  induction script with
+  | nil =>
+    intro m m' r c ht _ hrun
+    simp only [runPoliced, Prod.mk.injEq, and_true] at hrun
+    subst hrun
+    exact ⟨r, c, rfl, ht⟩
+  | cons op rest ih =>
+    intro m m' r c ht hov hrun
+    simp only [List.length_cons] at hov
+    unfold runPoliced at hrun
+    cases hst : policedStep maxDepth m0.stack.length m op with
+    | error e => simp [hst] at hrun
+    | ok m1 =>
+      simp only [hst] at hrun
+      obtain ⟨hap, hfl⟩ := policedStep_ok _ _ _ _ _ hst
+      have hlen := tracks_stack_length m0 m r c ht
+      have hpop : op.isPop = true → r ≠ 0 := fun hp => by have := hfl hp; omega
+      obtain ⟨r1, c1, hs1, ht1, hc1⟩ := apply_tracks maxDepth m0 m m1 op r c ht hap hpop (by omega)
+      obtain ⟨r', c', hsh, ht'⟩ := ih _ _ _ _ ht1 (by omega) hrun
+      exact ⟨r', c', by simp [shape, hs1, hsh], ht'⟩
+
+/-- `no_pop_below_floor`: whatever the script, and whether or not it ends with an error, a machine that starts with at
+least `floor` open containers never has fewer. -/
+theorem no_pop_below_floor (maxDepth floor : Nat) (script : List Op) :
+    ∀ (m : Machine), floor ≤ m.stack.length → floor ≤ (runPoliced maxDepth floor script m).1.stack.length := by
+  induction script with
+  | nil => intro m h; exact h
+  | cons op rest ih =>
+    intro m h
+    unfold runPoliced
+    cases hst : policedStep maxDepth floor m op with
+    | error e => exact h
+    | ok m1 =>
+      simp only
+      apply ih
+      obtain ⟨hap, hfl⟩ := policedStep_ok _ _ _ _ _ hst
       cases op with
       | lit =>
         simp only [Op.apply, Machine.appendLiteral] at hap
         split at hap <;> try (simp at hap; done)
         split at hap <;> try (simp at hap; done)
         simp only [Except.ok.injEq] at hap
-        subst hap
-        exact ih _ _ _ _ _ _ (scalar_step m0 m r c _ ht rfl hc0) hc1 hrun (by simpa [shape] using hsh)
+        subst hap; exact h
       | val =>
         simp only [Op.apply, Machine.appendLiteral] at hap
         split at hap <;> try (simp at hap; done)
         split at hap <;> try (simp at hap; done)
         simp only [Except.ok.injEq] at hap
-        subst hap
-        exact ih _ _ _ _ _ _ (scalar_step m0 m r c _ ht rfl hc0) hc1 hrun (by simpa [shape] using hsh)
+        subst hap; exact h
       | str =>
         simp only [Op.apply, Machine.appendString] at hap
         split at hap <;> try (simp at hap; done)
         simp only [Except.ok.injEq] at hap
-        subst hap
-        exact ih _ _ _ _ _ _ (scalar_step m0 m r c _ ht rfl hc0) hc1 hrun (by simpa [shape] using hsh)
+        subst hap; exact h
       | pushO =>
         simp only [Op.apply, Machine.pushObject] at hap
         split at hap <;> try (simp at hap; done)
         split at hap <;> try (simp at hap; done)
         split at hap <;> try (simp at hap; done)
         simp only [Except.ok.injEq] at hap
-        subst hap
-        exact ih _ _ _ _ _ _ (push_step m0 m r c _ length_typeObject ht hc0) hc1 hrun (by simpa [shape] using hsh)
+        subst hap; simp; omega
       | pushA =>
         simp only [Op.apply, Machine.pushArray] at hap
         split at hap <;> try (simp at hap; done)
         split at hap <;> try (simp at hap; done)
         split at hap <;> try (simp at hap; done)
         simp only [Except.ok.injEq] at hap
-        subst hap
-        exact ih _ _ _ _ _ _ (push_step m0 m r c _ length_typeArray ht hc0) hc1 hrun (by simpa [shape] using hsh)
+        subst hap; simp; omega
       | popO =>
-        simp only [shape] at hsh
-        split at hsh
-        · simp at hsh
-        · rename_i hr
-          simp only [Op.apply, Machine.popObject] at hap
-          split at hap <;> try (simp at hap; done)
-          split at hap <;> try (simp at hap; done)
-          split at hap <;> try (simp at hap; done)
-          split at hap
-          · rename_i e hg
-            simp only [Except.ok.injEq] at hap
-            subst hap
-            exact ih _ _ _ _ _ _ (pop_step m0 m r c e ht hr hg) (by omega) hrun hsh
-          · simp at hap
+        have := hfl rfl
+        simp only [Op.apply, Machine.popObject] at hap
+        split at hap <;> try (simp at hap; done)
+        split at hap <;> try (simp at hap; done)
+        split at hap <;> try (simp at hap; done)
+        split at hap
+        · simp only [Except.ok.injEq] at hap
+          subst hap; simp; omega
+        · simp at hap
       | popA =>
-        simp only [shape] at hsh
-        split at hsh
-        · simp at hsh
-        · rename_i hr
-          simp only [Op.apply, Machine.popArray] at hap
-          split at hap <;> try (simp at hap; done)
-          split at hap <;> try (simp at hap; done)
-          split at hap
-          · rename_i e hg
-            simp only [Except.ok.injEq] at hap
-            subst hap
-            exact ih _ _ _ _ _ _ (pop_step m0 m r c e ht hr hg) (by omega) hrun hsh
-          · simp at hap
+        have := hfl rfl
+        simp only [Op.apply, Machine.popArray] at hap
+        split at hap <;> try (simp at hap; done)
+        split at hap <;> try (simp at hap; done)
+        split at hap
+        · simp only [Except.ok.injEq] at hap
+          subst hap; simp; omega
+        · simp at hap
 
 /-- What `Tracks` says about `DepthLength()`. -/
 theorem tracks_depthLength (m0 m : Machine) (r c : Nat) (ht : Tracks m0 m r c) :
